@@ -208,6 +208,8 @@ type vdFaultKV struct {
 	writes          int  // number of write transactions seen
 	failed          int
 	onWriteBody     func(n int) // hook called after the body of the n-th write ran, before commit
+	failPuts        map[string]int // shelf name -> number of upcoming Put calls on that shelf that fail
+	failedPuts      int
 	gate            func(ctx context.Context, kind string) // SCHED: called before every Read ("R") / Write ("W") transaction starts
 }
 
@@ -226,6 +228,32 @@ type vdWriteTx struct {
 }
 
 func (t vdWriteTx) Store() stoabs.KVStore { return t.kv }
+
+// GetShelfWriter wraps the writer so that single Put calls on a named shelf can be made to fail (armPutFailure).
+func (t vdWriteTx) GetShelfWriter(shelfName string) stoabs.Writer {
+	return vdFaultWriter{Writer: t.WriteTx.GetShelfWriter(shelfName), kv: t.kv, shelf: shelfName}
+}
+
+type vdFaultWriter struct {
+	stoabs.Writer
+	kv    *vdFaultKV
+	shelf string
+}
+
+func (w vdFaultWriter) Put(key stoabs.Key, value []byte) error {
+	w.kv.mu.Lock()
+	fail := false
+	if n := w.kv.failPuts[w.shelf]; n > 0 {
+		w.kv.failPuts[w.shelf] = n - 1
+		w.kv.failedPuts++
+		fail = true
+	}
+	w.kv.mu.Unlock()
+	if fail {
+		return stoabs.DatabaseError(errVdInjected)
+	}
+	return w.Writer.Put(key, value)
+}
 
 type vdReadTx struct {
 	stoabs.ReadTx
@@ -402,6 +430,16 @@ func (s *vdSched) run(schedule []int, fn func(actor int), timeout time.Duration)
 		}
 	}
 	return trace, true
+}
+
+// armPutFailure makes the next n Put calls on the named shelf fail (a storage fault at one write inside a transaction).
+func (f *vdFaultKV) armPutFailure(shelf string, n int) {
+	f.mu.Lock()
+	if f.failPuts == nil {
+		f.failPuts = map[string]int{}
+	}
+	f.failPuts[shelf] = n
+	f.mu.Unlock()
 }
 
 func (f *vdFaultKV) armFailures(n int) { f.mu.Lock(); f.failNextWrites = n; f.mu.Unlock() }
